@@ -281,11 +281,15 @@ pub fn case(ctx: &mut Ctx, idx: u64) {
                 tag: "gram".into(),
             }
         } else {
+            // cold-start campaign: the first map (first wave) is short, so that all threads reach the same code within
+            // a few microseconds of each other
+            let cold_first = pool.is_empty() && ctx.param_u64("cold", 0) == 1;
             gen::gen_map(
                 &mut rng,
                 &Mix {
                     realistic: true,
-                    max_objects: 120,
+                    max_objects: if cold_first { 10 } else { 120 },
+                    fixtures: !cold_first,
                     ..Mix::default()
                 },
             )
@@ -320,6 +324,26 @@ pub fn case(ctx: &mut Ctx, idx: u64) {
             }
         })
         .collect();
+    let mut jobs = jobs;
+    if ctx.param_u64("cold", 0) == 1 {
+        // cold-start campaign: the first wave (job 0, run by every thread at once) is a difficulty-bearing calculation;
+        // mode and kind rotate with the case index so that every mode's first-use paths are raced in some process
+        let modes = maps::reachable_modes(&pool[0]);
+        let mode = modes[(idx as usize) % modes.len()];
+        let kind = [0u8, 0, 2, 4, 1][(idx as usize / 4) % 5];
+        let mut spec = sets::gen_setspec(&mut rng, mode, SetDomain::Game);
+        if idx % 2 == 0 {
+            spec = SetSpec::default();
+        }
+        let first = Job {
+            map: 0,
+            mode,
+            spec,
+            sc: sets::gen_scorespec(&mut rng, pool[0].hit_objects.len() as u32 + 2),
+            kind,
+        };
+        jobs.insert(0, first);
+    }
     let all_text = texts.join("\n");
 
     let before: Vec<String> = pool.iter().map(dump).collect();
